@@ -219,6 +219,13 @@ def shard(ctx):
             else:
                 m["unsigned"] = {"age": rng.randint(0, 999), "x": [1]}
             fam.append((m, keys, "mut:unsigned-only"))
+            # unsigned keys that carry meaning elsewhere (a client-facing redaction marker, previous
+            # content, a transaction id): still outside what signatures and hashes cover
+            m = copy.deepcopy(signed)
+            m["unsigned"] = dict(m.get("unsigned") if isinstance(m.get("unsigned"), dict) else {},
+                                 **{rng.choice(["redacted_because", "prev_content", "transaction_id", "m.relations", "replaces_state"]):
+                                    rng.choice([{"type": "m.room.redaction", "content": {}, "event_id": "$r", "sender": "@a:b"}, {}, "x", None, 1])})
+            fam.append((m, keys, "mut:unsigned-only"))
             # --- signer-set variations ---
             for s in required:
                 m = copy.deepcopy(signed)
